@@ -67,6 +67,7 @@ def cases(draw):
           'max_queue': draw(st.integers(1, 12)), 'batch': draw(st.integers(1, 15)),
           'low_pct': draw(st.sampled_from([0.2, 0.5, 0.8])), 'hard_pct': draw(st.sampled_from([1.0, 1.25, 2])),
           'flow': draw(st.booleans()), 'dynamic': draw(st.booleans()), 'max_retries': draw(st.sampled_from([1, 2])),
+          'pause_after': draw(st.sampled_from([None, None, None, 25, 120, 600])),
           'ops': ops}
 
 
@@ -221,6 +222,8 @@ def classify(case, t):
     if any(t.stop_snapshot[d] for d in t.dests):
       classes.append('stop with data queued')
       nt = True
+  if any(getattr(tr, 'pushed_back', 0) for d in t.dests for tr in t.transports[d]):
+    classes.append('transport pushed back from inside write()')
   if t.records:
     classes.append('instrumentation timer fired')
     if any(t.own_drops.values()):
